@@ -227,15 +227,15 @@ def run(ctx):
             log("[C15] replay of a fit needs the full data set; re-running the seeded check instead")
     if not tasks:
         kidx = _key_indices(ctx)
-        n_s = ctx.n(96, 240 if big else 1500)
-        n_q = ctx.n(72, 200 if big else 1200)
-        n_g = ctx.n(160, 400 if big else 3000)
-        n_m = ctx.n(16, 40 if big else 200)
-        n_n = ctx.n(36, 80 if big else 400)
-        n_i = ctx.n(48, 120 if big else 600)
-        n_f = ctx.n(2, 3 if big else 8)
-        n_c = ctx.n(5, 12 if big else 40)
-        par = 5
+        n_s = ctx.n(72, 240 if big else 1000)
+        n_q = ctx.n(56, 200 if big else 800)
+        n_g = ctx.n(120, 400 if big else 3000)
+        n_m = ctx.n(12, 40 if big else 120)
+        n_n = ctx.n(30, 80 if big else 300)
+        n_i = ctx.n(40, 120 if big else 500)
+        n_f = ctx.n(2, 3 if big else 6)
+        n_c = ctx.n(5, 12 if big else 30)
+        par = ctx.n(5, 6 if big else 12)
         for ch in _chunks(gen_sampling(rng, n_s), par):
             tasks.append(dict(fn="tasks_c15:sampling", args=dict(cases=ch, key_idx=kidx)))
         for ch in _chunks(gen_quantiles(rng, n_q), par):
